@@ -148,3 +148,17 @@ func TestVerifC13RemoteIP(t *testing.T) {
 }
 
 func TestVerifReplay(t *testing.T) { vstat.RunReplays(t) }
+
+// The same extraction, recorded for C18 (d): the proxy derives client_ip from the offer.
+var uRemoteIP18 = vstat.New("C18", "c18_remoteip")
+
+func init() { vstat.Register(uRemoteIP18, runRemoteIP) }
+
+func TestVerifC18RemoteIP(t *testing.T) {
+	defer uRemoteIP18.Flush()
+	rapid.Check(t, func(rt *rapid.T) {
+		text, structured := genSDPText(rt)
+		c := sdpCase{Text: text}
+		vstat.Run(uRemoteIP18, t, rt, c, structured && strings.Contains(text, "a=candidate"), nil, runRemoteIP)
+	})
+}
